@@ -200,6 +200,7 @@ package jsonrpc2
 //@ requires r != nil && !held(r.mu) && buffered(r)
 //@ ensures [unlocked] !held(r.mu)
 //@ callreq receive [waits-for-the-id-it-sent] : arg1 == req.ID
+//@ callreq Request [ids-come-from-the-connections-one-counter] : recv != nil && recv == r.Client
 //@ callreq WriteMessage [sends-the-request-it-built] : arg0 == req
 
 //@ func (*Remote).handleRequest
